@@ -76,7 +76,7 @@ pub fn c19() -> ConcProp {
 pub fn c14() -> ConcProp {
   ConcProp {
     check: crate::strict::check_c14,
-    rule: "case = (scenario, knobs, schedule) from splitmix(VERIF_SEED, run index): a constructor program P (every source type, also re-boxed / behind dyn), objects a = P(), b = P() (own caches), c = P'() with P' one edit away (leaf text, file name, replacement field / order, child, attached map, node type); 1-3 simulated threads issue observers on a, b, c and comparison ops (==, hash with a fixed hasher, clone-then-compare, clone-then-hash, HashMap insert/lookup). Oracle: every answer equals the answer of the same call on a cold value (no union over orders); cold cross-checks: a == b, hash(a) == hash(b), symmetric ==, equal values answer every observer alike (text exact, attribution canonical), and a == c implies equal hashes and answers. distinct_nontrivial = distinct (scenario, event-log hash) pairs with at least one thread switch or, for single-thread histories, at least one comparison after an observer.",
+    rule: "case = (scenario, knobs, schedule) from splitmix(VERIF_SEED, run index): a constructor program P (every source type, also re-boxed / behind dyn), objects a = P(), b = P() (own caches), c = P'() with P' one edit away (leaf text, file name, replacement field / order, child, attached map, node type); 1-3 simulated threads issue observers on a, b, c and comparison ops (==, hash with a fixed hasher, clone-then-compare, clone-then-hash, HashMap insert/lookup). Oracle: every answer equals the answer of the same call on a cold value (no union over orders); cold cross-checks: a == b, hash(a) == hash(b), symmetric ==, equal values answer every observer alike (text exact, attribution canonical, a map's file / sourceRoot / debugId exact), and a == c implies equal hashes and answers. distinct_nontrivial = distinct (scenario, event-log hash) pairs with at least one thread switch or, for single-thread histories, at least one comparison after an observer.",
     extra_assumptions: &["FxHasher with its fixed initial state is the hasher; hashes are compared within one process only"],
     id: "C14",
     judge: JudgeCfg {
